@@ -964,7 +964,12 @@ class GssapiWithMicAuthHandler:
     def _handler_table(self):
         # TODO: determine if we can cut this up like we did for the primary
         # AuthHandler class.
-        return self.__handler_table
+        # NOTE: the run loop calls these as ``handler(m)``; the class-level
+        # table holds plain functions, so hand out bound methods.
+        return {
+            ptype: handler.__get__(self, type(self))
+            for ptype, handler in self.__handler_table.items()
+        }
 
 
 class AuthOnlyHandler(AuthHandler):
